@@ -6,6 +6,19 @@ V = os.path.dirname(os.path.dirname(os.path.abspath(__file__)))
 def esc(s):
     return str(s).replace("|", "\\|").replace("\n", " ")
 
+CORR = {"C01": "word-ops; multi-process renderings", "C02": "interp-ops", "C03": "interp-ops; reference interpreter (frag.rs)", "C04": "tables feat; c04-ops (exhaustive)", "C05": "c05-match (exhaustive table)",
+        "C06": "interp-ops", "C07": "interp-ops", "C08": "interp-ops", "C09": "word-ops (segment space)", "C10": "runner glue", "C11": "runner glue", "C12": "interp-ops; tables groups",
+        "C13": "tables names", "C14": "interp-ops", "C15": "alias-ops", "C16": "runner glue-trace", "C17": "formatter ops", "C18": "c18-enum (65 537 places), c18-laws", "C19": "cli-files (real binary)", "C20": "seq-plan; real binary"}
+
+def theorem_table():
+    out = ["### 9.1b Theorems per property (generated from `lean/AscaVerif/Props`)", "", "| property | theorems in `Props/Cxx.lean` | correspondence suites |", "|---|---|---|"]
+    for i in range(1, 21):
+        pid = f"C{i:02d}"
+        f = os.path.join(V, "lean", "AscaVerif", "Props", pid + ".lean")
+        names = re.findall(r"^theorem\s+([A-Za-z0-9_]+)", open(f, encoding="utf-8").read(), re.M) if os.path.exists(f) else []
+        out.append(f"| {pid} | {len(names)}: " + ", ".join(f"`{n}`" for n in names) + f" | {CORR.get(pid, '')} |")
+    return "\n".join(out)
+
 def tables():
     k = json.load(open(os.path.join(V, "known_findings.json"), encoding="utf-8"))["findings"]
     out = ["### 9.2 Defects found by the checks", "",
@@ -27,7 +40,7 @@ def tables():
     for d in sorted(glob.glob(os.path.join(V, "seeded", "*", "meta.json"))):
         m = json.load(open(d, encoding="utf-8"))
         out.append(f"| {m['property']} | `{os.path.basename(os.path.dirname(d))}` | {esc(m['needs_to_manifest'])} | {esc(m['detected_by'])} |")
-    return "\n".join(out)
+    return theorem_table() + "\n\n" + "\n".join(out)
 
 def main():
     p = os.path.join(V, "DESIGN.md")
